@@ -429,4 +429,4 @@ Proof.
   assert (Hne : pl_type pl =? 0 = false) by (apply Z.eqb_neq; intros H0; rewrite H0 in Hnz; apply Hnz; reflexivity).
   unfold create. destruct (kind_of_type (pl_type pl)); [rewrite Hk|]; unfold mk_payload; rewrite Hne; destruct pl; reflexivity.
 Qed.
-Check expected. Check exp_of. Check pkt_wf.
+
